@@ -473,6 +473,20 @@ TrSubdivision == IsOp("subdivision") /\ KeepAll /\
         IF E.u \in {8, 9} THEN Has(E.res, "none")
         ELSE DurIs(E.res, B!Mul(x[9 - E.u], Ur[E.u]))
 
+(* L2 for the tokenizer model: the class string explored by TLC in MC_Tokenizer, its concretisation, and what the  *)
+(* real from_gregorian_str did with it.  A panic or a missed deadline is not explained (C13).  Otherwise the event  *)
+(* is accepted, and DRIFT is printed when the implementation-shaped model and the parser disagree: a string the    *)
+(* parser accepts must be tokenized to its end by the model, a string the model rejects must be an error.          *)
+TK == INSTANCE TokenizerModel
+CodeClass(c) == CASE c \in 48..57 -> "d" [] c = 45 -> "-" [] c = 58 -> ":" [] c = 46 -> "." [] c = 84 -> "T" [] c = 90 -> "Z"
+                  [] c = 43 -> "+" [] c = 32 -> " " [] c = 233 -> "e2" [] c = 1635 -> "n2" [] c = 8364 -> "e3" [] c = 119070 -> "e4"
+                  [] OTHER -> "x"
+TrTokModel == IsOp("tok_model") /\ KeepAll /\ UNCHANGED sw
+      /\ (IsEp(E.res) \/ Has(E.res, "err"))
+      /\ Len(E.cls) = Len(E.s) /\ (\A i \in 1..Len(E.s) : CodeClass(E.s[i]) = E.cls[i])
+      /\ LET v == TK!Run(E.cls)[1] IN
+           ((IsEp(E.res) /\ v # "end") \/ (v = "err" /\ IsEp(E.res)) \/ v = "PANIC") => PrintT(<<"DRIFT", l>>)
+
 (* the other parsers: a value or an error, never a panic or a hang (C13) *)
 TrTotality == IsOp("totality") /\ KeepAll /\ (Has(E.res, "ok") \/ Has(E.res, "err"))
 TrParseScale == IsOp("parse_scale") /\ KeepAll /\
@@ -524,7 +538,7 @@ Dev_F25 == /\ Open("F25") /\ IsOp("iso_vs_display") /\ KeepAll /\ Has(E.iso, "v"
 TextNext1 ==
   \/ TrIsoVsDisplay \/ Dev_F25
   \/ TrFmtEpoch \/ TrAccessors \/ TrEpochHms \/ TrParseEpoch \/ TrFmtDur \/ TrParseDur \/ TrSubdivision
-  \/ TrTotality \/ TrParseScale \/ TrFmtFromStr \/ TrRender \/ TrConstEq \/ TrRenderConst \/ TrFmtParse
+  \/ TrTotality \/ TrTokModel \/ TrParseScale \/ TrFmtFromStr \/ TrRender \/ TrConstEq \/ TrRenderConst \/ TrFmtParse
 TextNext == UNCHANGED sw /\ TextNext1
 
 -----------------------------------------------------------------------------
